@@ -339,7 +339,26 @@ fn build_cases(tier: Tier) -> Vec<Case> {
             }
         }
     }
-    cases
+    // Interleave the classes (single / nested / nested_dependent / nested_same_variable) round-robin,
+    // so that a run cut short by the wall cap has still sampled every class evenly.
+    let mut groups: std::collections::BTreeMap<&'static str, std::collections::VecDeque<Case>> = Default::default();
+    for c in cases {
+        groups.entry(c.nest).or_default().push_back(c);
+    }
+    let mut out = Vec::new();
+    loop {
+        let mut any = false;
+        for q in groups.values_mut() {
+            if let Some(c) = q.pop_front() {
+                out.push(c);
+                any = true;
+            }
+        }
+        if !any {
+            break;
+        }
+    }
+    out
 }
 
 fn compare(looped: &str, hand: &str) -> (Option<String>, bool, u64) {
